@@ -348,6 +348,17 @@ func genRunAt(w *bufio.Writer, rng *rand.Rand, run int, stats map[string]int, sh
 			before := n.height
 			n.op(fmt.Sprintf("X %d", x), func() { n.d.OnTransaction(Tx(x)) })
 			after(n, before)
+		case r == 99 && rng.Intn(2) == 0:
+			// the ledger is synchronised by other means while the node is still working on the height (no block was accepted
+			// through the library): the application re-initialises the node for the new height
+			n := lives[rng.Intn(len(lives))]
+			if deferred[n.id] {
+				continue
+			}
+			n.height += uint32(1 + rng.Intn(2))
+			n.tip = toks(8, n.height)
+			stats["external-blocks"]++
+			doReset(n)
 		case dyn && r < 93:
 			n := lives[rng.Intn(len(lives))]
 			for _, m := range lives { // half of the time a node that has decided and was not reset yet, when there is one
